@@ -216,8 +216,15 @@ func simCall(fn string, args ...ast.Expr) *ast.CallExpr {
 func (r *rw) goStmt(g *ast.GoStmt) ast.Stmt {
 	r.needSim = true
 	r.st.GoStmts++
-	site := &ast.BasicLit{Kind: token.STRING, Value: strconv.Quote(r.pos(g.Pos()))}
 	call := g.Call
+	callee := "func"
+	switch f := call.Fun.(type) {
+	case *ast.SelectorExpr:
+		callee = f.Sel.Name
+	case *ast.Ident:
+		callee = f.Name
+	}
+	site := &ast.BasicLit{Kind: token.STRING, Value: strconv.Quote(callee + "@" + r.pos(g.Pos()))}
 	if lit, ok := call.Fun.(*ast.FuncLit); ok && len(call.Args) == 0 && lit.Type.Results == nil {
 		return &ast.ExprStmt{X: simCall("Go", site, lit)}
 	}
